@@ -27,3 +27,21 @@ Theorem C04_lr_terminates_validated : GV.LR.TermSpec.lr_terminates_validated_stm
 Proof. exact GV.Properties.LRterm.LRterm_lr_terminates_validated. Qed.
 Print Assumptions C04_lr_terminates_validated.
 
+
+(* C04 for the table the construction builds (theories/C01/Pipeline*.v: mirror of pager_stategraph + gc
+   composed with the mirror of StateTable::new; every grammar, every oracle of hash orders): the
+   viable-prefix clause ALWAYS, conflicts resolved or not; the first-error clause when the construction
+   reports no conflict and precedence settled no cell *)
+From GV Require Import C01.Pipeline C01.PipelineSpec C01.PipelineMain.
+
+Theorem C04_construction_shifted_prefix_viable : construction_shifted_prefix_viable_stmt.
+Proof. exact construction_shifted_prefix_viable. Qed.
+Print Assumptions C04_construction_shifted_prefix_viable.
+
+Theorem C04_construction_first_error_not_viable : construction_first_error_not_viable_stmt.
+Proof. exact construction_first_error_not_viable. Qed.
+Print Assumptions C04_construction_first_error_not_viable.
+
+Theorem C04_construction_never_panics : construction_never_panics_stmt.
+Proof. exact construction_never_panics. Qed.
+Print Assumptions C04_construction_never_panics.
